@@ -21,7 +21,7 @@ from vf import geom, hexconv
 ID = "C14"
 BUDGET = {"quick": 2400, "thorough": 60000}
 MIN_KEYS = 200
-REQUIRED = [
+REQUIRED = ["judged:history:value-after-smoothing-vs-fresh-grid",
     "judged:renumbering:hex:single", "judged:renumbering:hex:neighbours",
     "judged:renumbering:quad:single", "judged:renumbering:quad:neighbours",
     "exhaustive:24-renumberings-of-one-hex", "exhaustive:4-renumberings-of-one-quad",
@@ -258,6 +258,14 @@ QUAD_DIMS = [(2, 2), (2, 2), (3, 2), (2, 1), (1, 3), (3, 3)]
 def gen_case(ctx):
     rng = ctx.rng
     u = rng.random()
+    if u > 0.97:
+        # history: the value read from a long-lived grid after its points were moved by the smoother must be the value
+        # of the new shape (= what a freshly built grid of the same points reports)
+        dims = rng.choice([[2, 2, 2], [3, 2, 2], [3, 3, 2]])
+        side = 10 ** rng.uniform(math.log10(2500), 5)
+        pts, cells = hex_lattice(dims)
+        pts = [[(p[a] + rng.uniform(-0.2, 0.2)) * side for a in range(3)] for p in pts]
+        return {"mode": "history", "kind": "hex", "points": pts, "cells": [list(c) for c in cells], "iterations": rng.randint(1, 4)}
     if u < 0.12:
         n = rng.choice([1, 1, 2])
         side = 10 ** rng.uniform(math.log10(250), 6)
@@ -473,7 +481,40 @@ def _level(bad):
     return "cell" if "cell" in levels else "+".join(sorted(levels))
 
 
+def run_history(ctx, case):
+    import classy_blocks as cb
+    from classy_blocks.optimize.grid import HexGrid
+
+    pts = np.array(case["points"], dtype=float)
+    mesh = cb.Mesh()
+    for cell in case["cells"]:
+        p = pts[list(cell)]
+        mesh.add(cb.Loft(cb.Face(p[:4]), cb.Face(p[4:])))
+    mesh.assemble()
+    smoother = cb.MeshSmoother(mesh)
+    ctx.evaluated()
+    ctx.key(["history", len(case["cells"]), case["iterations"]])
+    try:
+        q0 = float(smoother.grid.quality)
+        smoother.smooth(case["iterations"])
+        q1 = float(smoother.grid.quality)
+        q2 = float(HexGrid.from_mesh(mesh).quality)
+    except ValueError as err:
+        if "Degenerate" in str(err):
+            ctx.count("history:degenerate-skipped")
+            return
+        raise
+    ctx.count("judged:history:value-after-smoothing-vs-fresh-grid")
+    n = len(case["cells"])
+    if differs(q1, q2, n):
+        ctx.violation("history:stale-value-after-points-moved",
+                      f"grid quality read before smoothing {q0!r}, after {case['iterations']} smoothing iterations the same grid reports "
+                      f"{q1!r} but a fresh grid of the moved points reports {q2!r}")
+
+
 def run_case(ctx, case):
+    if case["mode"] == "history":
+        return run_history(ctx, case)
     if case["mode"] == "stretch":
         return run_stretch(ctx, case)
     kind, mode, via = case["kind"], case["mode"], case["via"]
